@@ -165,8 +165,9 @@ def principal_functions(o):
         o.prove(f'min_principal == w0 [{kind}]', mn.t == recs[0][0][0], hide_nonlinear=True)
         a, recs = with_eigs(o, 'abs_max_principal', s, kind)
         # two eigvalsh calls on the same tensor (abs_max_principal and _sign_abs_max_principal): equal by the uniqueness lemma
-        wa, wb = recs[0][0], recs[1][0]
-        same = z3.And(*[wa[i] == wb[i] for i in range(3)])
+        # one or more eigvalsh calls on the same tensor (slot obligations above): their sorted eigenvalues are equal by the uniqueness lemma
+        wa = recs[0][0]
+        same = z3.And(*([z3.BoolVal(True)] + [wa[i] == r_[0][i] for r_ in recs[1:] for i in range(3)]))
         o.prove(f'abs_max_principal == w2 if |w2| >= |w0| else w0 [{kind}]',
                 a.t == z3.If(absz(wa[2]) >= absz(wa[0]), wa[2], wa[0]), under=[same], hide_nonlinear=True)
         o.prove(f'|abs_max_principal| == max |w_i| [{kind}]',
